@@ -325,6 +325,19 @@ fn part_b(ctx: &Ctx, out: &mut WorkerOut) {
             seen = received(&log).len();
             continue;
         }
+        // the textual form: every parameter value of an event that came in over HTTP is a string
+        let kinds: Vec<(String, &'static str)> = log
+            .snapshot()
+            .iter()
+            .filter_map(|(t, r)| match r {
+                Rec::XRecv(e) if *t == 0 && !e.name.starts_with("go") => Some(e.ptypes.clone()),
+                _ => None,
+            })
+            .last()
+            .unwrap_or_default();
+        if let Some(bad) = kinds.iter().find(|(_, k)| *k != "String") {
+            out.violation(ctx, "http-send-differs", "http:send-param-not-textual", &format!("sent event {:?} params {:?}: parameter {:?} arrived as a {} value, not in its textual form", n, ps, bad.0, bad.1), replay.clone());
+        }
         if back[0].0 != *n || back[0].1 != exp_params {
             let what = if back[0].0 != *n { "name" } else { "params" };
             out.violation(ctx, "http-send-differs", &format!("http:send-{}-differs", what), &format!("sent event {:?} params {:?}, received {:?}", n, exp_params, back[0]), replay);
